@@ -263,7 +263,14 @@ func DumpAPIx(api API, who string, hint Extents) (d *Dump) {
 		case 1: // REG
 			read := func(off, n int) {
 				got := []Run{}
+				start := off // start of the window being collected
 				pos := off
+				flush := func(end int) {
+					if end > start || (end == off+n && start == off) {
+						o.Wins = append(o.Wins, Win{Off: start, Len: end - start, Runs: Enc(Dec(got))})
+					}
+					got = []Run{}
+				}
 				for pos < off+n {
 					r := NewCall("READ")
 					r.Fh = fh
@@ -280,16 +287,27 @@ func DumpAPIx(api API, who string, hint Extents) (d *Dump) {
 					l := RunsLen(r.RData)
 					if l == 0 {
 						if DumpTolerantShort != nil && DumpTolerantShort() {
-							// nearly full disk: a READ that has to materialise a hole may come up short;
-							// compare what could be read
-							n = pos - off
+							// nearly full disk: a READ that has to materialise a hole comes up short. Keep what was
+							// read as one window, skip the block that cannot be read and go on behind it, so that
+							// the blocks that ARE mapped still take part in the comparison.
+							flush(pos)
+							pos = (pos/4096 + 1) * 4096
+							start = pos
+							continue
 						}
-						break
+						// not a full disk: a read that returns nothing before the end is reported as it is
+						o.Wins = append(o.Wins, Win{Off: start, Len: off + n - start, Runs: Enc(Dec(got))})
+						return
 					}
 					got = append(got, r.RData...)
 					pos += l
 				}
-				o.Wins = append(o.Wins, Win{Off: off, Len: n, Runs: Enc(Dec(got))})
+				if pos > off+n {
+					pos = off + n
+				}
+				if start < off+n || start == off {
+					flush(pos)
+				}
 			}
 			if g.RSize <= dumpFullLimit {
 				read(0, g.RSize)
